@@ -391,6 +391,20 @@ func (c *Conn) Write(b []byte) (int, error) {
 	}
 	c.writeBuf = append(c.writeBuf, b...)
 	for len(c.writeBuf) >= 5 {
+		if c.writePassthrough {
+			// An earlier record of this very Write ended the inspection:
+			// whatever follows it is not interpreted any more.
+			n, err := c.Conn.Write(c.writeBuf)
+			sz := len(c.writeBuf)
+			c.writeBuf = c.writeBuf[n:]
+			if err != nil {
+				return min(len(b), n), err
+			}
+			if n != sz {
+				return min(len(b), n), io.ErrShortWrite
+			}
+			break
+		}
 		length := uint32(c.writeBuf[3])<<8 | uint32(c.writeBuf[4])
 		if length > maxRecordLength {
 			return 0, fmt.Errorf("%w: record length %d > %d", ErrDecodeError, length, maxRecordLength)
